@@ -59,6 +59,11 @@ P.update({
          "Coq proof of the synchronisation discipline over all interleavings + generated-table facts + race-detector runs from cold start", "5 C12"),
 })
 
+P.update({
+ "C17": ("Theorems C17_faithful, C17_langs: the update-wordlist template is parsed with text/template/parse by the translator on every run; a Gallina interpreter of that parse tree (html/template's text-context escaper modelled byte for byte) applied to strings.Split(src, \"\\n\") renders a file that an independent Gallina reader of Go list literals (Go lexical rules on this shape: semicolon insertion, interpreted string literals, whole-file UTF-8 validity, no BOM) reads back as exactly the non-empty input lines in order under the given variable - for every input whose lines are valid UTF-8 without quote, backslash, markup characters, NUL, CR or BOM (a superset of letters and combining marks), any number of lines, blank lines anywhere, with or without trailing newline; the file->variable table is the expected bijection. Differential: the real tool built with -tags verif runs against a loopback server on the canonical files and random word files over all scripts; written bytes = model rendering; go/parser's list = model reader's list = non-empty input lines; the files compile; canonical input reproduces the committed lists.",
+         "Coq proof over the translator-parsed template (all inputs in the domain) + differential runs of the real tool against a loopback server", "5 C17"),
+})
+
 NOT_YET = {}
 
 def main():
